@@ -15,6 +15,7 @@ CHECKS = {
     'C10': dict(level='exploration', runs=_e1v('C10', 'h_k', ('ref', 'i64', 'asan')), percase=10, deadline=dict(quick=150, thorough=1500)),
     'C11': dict(level='exploration', runs=_e1v('C11', 'h_k', ('ref', 'asan')), percase=5, deadline=dict(quick=150, thorough=1500)),
     'C14': dict(level='exploration', runs=_e1v('C14', 'h_k2', ('ref', 'obl', 'asan')), percase=5, deadline=dict(quick=150, thorough=1500)),
+    'C17': dict(level='exploration', runs=_e1v('C17', 'h_k3', ('ref', 'asan')), percase=5, deadline=dict(quick=150, thorough=1500)),
     'C12': dict(level='exploration', runs=_e1('C12', 'h_e1x'), percase=5, deadline=dict(quick=150, thorough=1500)),
     'C13': dict(level='exploration', runs=_e1('C13', 'h_e1x'), percase=5, deadline=dict(quick=150, thorough=1500)),
     'C06': dict(level='model_checking', runs=_e1('C06', 'h_e3'), percase=20, deadline=dict(quick=150, thorough=1500),
@@ -81,3 +82,7 @@ META['C11'] = dict(engine='E1 small-scope enumerator', design_ref='5/C11', techn
 META['C14'] = dict(engine='E1 small-scope enumerator', design_ref='5/C14', technique='bounded exhaustive enumeration of factor structures x flag spellings x alpha/beta with dense reference operations',
     text='sp_xtrsv over all 96 combinations of uplo{L,U,l,u} x trans{N,T,C,n,t,c} x diag{U,N,u,n} on factors with singleton, multi-column and relaxed supernodes; xgstrs over Trans x nrhs{0..3} x ldb{n,n+1,n+3}; sp_xgemv / sp_xgemm over six trans spellings x alpha,beta in {0,1,-1,2.5,i} on square and rectangular A with y pre-filled with NaN when beta=0: componentwise residual / product bounds against the dense stored operand, info=0 for every documented spelling, only the output is written, padding untouched, every rhs column judged against its own b.',
     note='(uplo=L, diag=N) has no defined operand (the diagonal slots of the supernodal block hold U) and is skipped. Runs with bundled kernels, with vendor BLAS (the tested configuration) and under ASan. Known finding F21 (diag flag ignored for unit-upper) is reported as KNOWN-FINDING; F4 and F12 were repaired by fix: commits.')
+
+META['C17'] = dict(engine='E1 small-scope enumerator', design_ref='5/C17', technique='bounded exhaustive enumeration of patterns x magnitude schemes with brute-force optimum over all n! matchings',
+    text='All patterns of order <=4 and deviation-1 neighbourhoods of 5x5/6x6 bases x value schemes with ties, small integers, wide magnitude spreads and zero diagonals x 4 types through xldperm(job=5): structural rank < n iff non-zero return; perm is a bijection onto non-zeros; the sum of log|diagonal| equals the brute-force maximum over all perfect matchings; with r=exp(u), c=exp(v) matched entries scale to 1 and all others to <= 1; colptr/rowind/nzval bit-identical afterwards.',
+    note='Complex magnitudes are |re|+|im| (what zldperm hands to MC64). Known finding F22 (Q/Q2 overlap in mc64wd_ on ties) is keyed to the eight failing inputs and reported as KNOWN-FINDING.')
